@@ -185,7 +185,7 @@ theorem parse_serialize_multi_partial (plus : Plus) (as : List Annotation) (h2 :
     (hc : as.all canon = true) :
     serializeMulti plus as (List.replicate (as.length - 1) (some false)) = .ok (chainsText plus as) ∧
     parse true (chainsText plus as) = .ok (.multi as (List.replicate (as.length - 1) (some false))) := by
-  refine ⟨serializeMulti_plus plus as, ?_⟩
+  refine ⟨serializeMulti_plus _ plus as, ?_⟩
   match as, h2 with
   | a :: b :: t, _ =>
     unfold parse
@@ -232,6 +232,16 @@ theorem parse_joined (plus : Plus) (as : List Annotation) (h2 : as.length ≥ 2)
 
 example : joinedText (constPlus false) [{ seq := "PEP".toList }, { seq := "TIDE".toList, charge := some 2 }, { seq := "K".toList }]
     [true, false] = "PEP//TIDE/2+K".toList := by decide +kernel
+
+/-- **Round trip of multi-chain annotations relative to the corrected joiner.** With `serializeMultiFixed` (the coded
+serializer with the single constant `crosslinkJoinerAsCoded` replaced by `//`) every multi-chain annotation with ≥ 2
+canonical chains and any connection flags round-trips. The code as it is satisfies this only for flags that are all
+`False` (`parse_serialize_multi_partial`); the counter-example for the rest follows. -/
+theorem parse_serializeMultiFixed (plus : Plus) (as : List Annotation) (h2 : as.length ≥ 2) (hc : as.all canon = true)
+    (flags : List Bool) (hl : flags.length + 1 = as.length) :
+    (serializeMultiFixed plus as (flags.map some)).bind (parse true) = .ok (.multi as (flags.map some)) := by
+  rw [serializeMultiFixed_joined plus as flags hl]
+  exact parse_joined plus as h2 hc flags hl
 
 /-- The full statement (any connection flags) is FALSE for the current code: `MultiProFormaAnnotation.serialize` writes a
 crosslink as two backslashes, which the parser rejects, while it reads `//` (KF-C01-crosslink-backslash; pinned by
